@@ -383,7 +383,16 @@ func (c *syntaxLoader) collectDirectives(p ast.ParserSection) {
 	}
 	// Sets pass 2. Resolve the rhs.
 	for _, s := range setsToResolve {
-		*c.out.Sets[s.index] = *c.convertSet(s.expr)
+		set := c.convertSet(s.expr)
+		for _, named := range c.out.Sets {
+			if set == named {
+				// A plain alias of another named set, which may not be resolved yet: refer to it
+				// rather than copying its current content.
+				set = &syntax.TokenSet{Kind: syntax.Union, Sub: []*syntax.TokenSet{named}, Origin: named.Origin}
+				break
+			}
+		}
+		*c.out.Sets[s.index] = *set
 	}
 
 	for _, mapping := range c.mapping {
